@@ -75,7 +75,42 @@ input_class labels are pure functions of the case, never of the outcome.  Classe
   rescale-default-threshold  'evidence,chain,non-monotone-scales'   (default rescale() stops up to a factor 1000 away
                           from the common scale)
 
-NOT covered by this tier: stacks larger than 6 conditions / 4 RDMs (8 for chains); value of bures / neg_riem_dist on masks
+Dimension sweeps (tools/SWEEP_BRIEF.md; same clauses and obligations, inputs varied along further dimensions; domains named
+'C13/<oracle>[...]' and C13/fresh-interpreter, registered in `_sweeps`; every expected value is still the literal definition)
+  typed data        NaN-bearing float32 stacks (only floating types hold NaN; both stacks or one of them, model / data of the fits,
+                    partial RDMs; expected: the definition on the same values as float64, tolerance 1e-5 -- the statement fixes no
+                    precision); COMPLETE integer stacks over the range of the type: uint8 / int16 / uint16 / int64 for compare, uint8 /
+                    int16 for pool_rdm and mean; integer-typed weights for all weight kinds of mean.
+  units             stacks times 1e-20 .. 1e12 (each stack its own factor; pool / noise ceiling / fit data: one factor per RDM),
+                    sigma_k times 1e-12 / 1e8, weights times 1e-15 / 1e12 (the weighted mean does not change), model RDMs times
+                    1e-6 / 1e4, proportional partial RDMs times 1e-12 / 1e8.  Results that carry a unit (pooled RDMs, means, squared
+                    Bures metric) are compared relative to their own magnitude (`_rclose`; harness.close has a floor at 1).
+  containers/labels bootstrap samples as list / tuple / ndarray, patterns selected by int / str labels whose sorted order differs from
+                    the pattern order; from_partials with integer condition labels and the pattern descriptor as tuple / ndarray; stacks
+                    given as square matrices (NaN at [i, j] and [j, i]), Fortran-ordered or as non-contiguous view; one weight per RDM
+                    as 1-D ndarray argument and as ndarray-valued rdm descriptor; rdm descriptor groups for boot_noise_ceiling.
+  repeated values   samples in non-ascending order with interleaved repeats ([3, 1, 3, 0, 4]); str groups 's2', 's10', 's2', 's1', 's2'
+                    (interleaved, unbalanced, appearance order != sorted order); the same condition set in several partial objects.
+  sizes             stacks of 1 / 4 / 5 RDMs (1x1, 1x4, 5x1), 3 conditions (2 entries left), 7 (thorough: 8, 9) conditions with up to 8
+                    missing pairs; 1 and 3 basis RDMs, 1 and 4 data RDMs; single-RDM mean / rescale; partial RDMs of 2 conditions;
+                    differing masks only in the LAST / a middle RDM of stacks of 3-4 RDMs.
+  call sequences    key `again`: compare / pool_rdm / fit_regress(_nn) are called on ANOTHER stack of the same shape with another mask
+                    of the same size and then again on the first (rescale: the identical call twice): identical result, results held
+                    by the caller and sigma_k / model / data unchanged.
+  environment       C13/fresh-interpreter: interpreters with other PYTHONHASHSEEDs build the same partial RDMs from str labels and give
+                    the definition's comparison values and weighted mean, and this process's pooled / rescaled RDMs.
+  not applicable    competitor sets (no optimality claim beyond the GLS solution, which is computed exactly), files.  Not demanded:
+                    Python lists as weights or RDM stacks, `all_patterns` other than a list (documented as list).
+  a noise-ceiling case whose pooled training RDM is constant on the remaining entries (correlation 0/0 by definition) is not judged.
+  PENDING TRIAGE (fail on the unchanged tree; registrations behind `if False:  # pending triage: <class>` in `_sweeps`)
+    'units-tiny,whitened-pooling'  util.pooling.pool_rdm(cosine_cov / corr_cov) of RDMs in units of 1e-12 returns inf / NaN
+    'units-tiny,whitened-fit'      fit_regress / fit_regress_nn (cosine_cov / corr_cov) with data RDMs times 1e-12 (NaN / zero weights /
+                                   ValueError) or model RDMs times 1e-10 (LinAlgError); 7e-4 off already at 1e-6
+                                   (all three: conjugate gradients with atol=1e-9, an absolute residual bound)
+    'units-model,nonneg'           fit_regress_nn with model RDMs times 1e4 does not return (no result within 20 s; erratic from
+                                   1e2 on), times 1e-15 returns all-zero weights (`while np.max(w) > 100 * eps` in _nn_least_squares)
+
+NOT covered by this tier: stacks larger than 6 conditions / 4 RDMs (8 for chains) outside the sweeps above; value of bures / neg_riem_dist on masks
 that do not remove whole conditions (the entry-deleted vector is not an RDM; the functions raise or are undefined);
 pool_rdm on stacks whose RDMs have different masks (the statement does not define the value); rescale on RDMs that are
 not connected by shared entries or contain all-NaN / all-zero rows; the value rescale converges to for non-proportional
@@ -1977,9 +2012,6 @@ def tier_c(run, thorough):
 # dimension sweeps (tools/SWEEP_BRIEF.md): the same clauses, inputs varied along further dimensions
 # =====================================================================================================
 UNIT_PAIRS = [(1e-12, 1.0), (1.0, 1e-20), (1e8, 1e-12), (1e-20, 1e12)]
-# input classes that fail on the unchanged tree and wait for triage (see the module docstring); True = registered
-PENDING_UNITS_WHITENED = False
-PENDING_UNITS_NN = False
 
 
 def _seeded_masks(rs, P, kmax, count, kmin=1):
@@ -2227,14 +2259,13 @@ def _sweeps(run, thorough, bds):
                  % ('one' if thorough else 'third'), function='pool_rdm')
     pbase = [(4, m) for m in (m4 if thorough else m4[::3])] + [(5, m) for m in (m5 if thorough else m5[::4])]
 
-    def pool_both(case, cls, whitened_cls=None):
+    def pool_both(case, cls):
         method = case['method']
         bd.check(orc_pool, dict(case, copy='inference_util'), cls, function='util.inference_util.pool_rdm')
         if method == 'neg_riem_dist':
             return
         for s in sig_for(method, ('none', 'matrix')):
-            bd.check(orc_pool, dict(case, copy='pooling', sigma=s), whitened_cls if (whitened_cls and method.endswith('_cov')) else cls,
-                     function='util.pooling.pool_rdm')
+            bd.check(orc_pool, dict(case, copy='pooling', sigma=s), cls, function='util.pooling.pool_rdm')
     for bi, (n, missing) in enumerate(pbase):
         for method in POOL_METHODS:
             c0 = dict(seed=9600 + 20 * n + bi, n_cond=n, missing=missing, method=method)
@@ -2244,16 +2275,15 @@ def _sweeps(run, thorough, bds):
             pool_both(dict(c0, n_rdm=3, again=True), 'repeated-call')
             pool_both(dict(c0, n_rdm=3, units=1e8), 'units-large')
             pool_both(dict(c0, n_rdm=3, units=[1e-3, 1.0, 1e6]), 'units-per-rdm')
-            if PENDING_UNITS_WHITENED:
-                pool_both(dict(c0, n_rdm=3, units=1e-12), 'units-tiny', 'units-tiny,whitened-pooling')
-                pool_both(dict(c0, n_rdm=3, units=[1e-12, 1.0, 1e6]), 'units-per-rdm', 'units-tiny,whitened-pooling')
-            else:
-                bd.check(orc_pool, dict(c0, n_rdm=3, units=1e-12, copy='inference_util'), 'units-tiny', function='util.inference_util.pool_rdm')
-                bd.check(orc_pool, dict(c0, n_rdm=3, units=[1e-12, 1.0, 1e6], copy='inference_util'), 'units-per-rdm',
-                         function='util.inference_util.pool_rdm')
-                if not method.endswith('_cov') and method != 'neg_riem_dist':
-                    bd.check(orc_pool, dict(c0, n_rdm=3, units=1e-12, copy='pooling', sigma='none'), 'units-tiny',
-                             function='util.pooling.pool_rdm')
+            for units, cls in ((1e-12, 'units-tiny'), ([1e-12, 1.0, 1e6], 'units-per-rdm')):
+                bd.check(orc_pool, dict(c0, n_rdm=3, units=units, copy='inference_util'), cls, function='util.inference_util.pool_rdm')
+                if method.endswith('_cov'):
+                    if False:  # pending triage: units-tiny,whitened-pooling
+                        for s in ('none', 'matrix'):
+                            bd.check(orc_pool, dict(c0, n_rdm=3, units=units, copy='pooling', sigma=s), 'units-tiny,whitened-pooling',
+                                     function='util.pooling.pool_rdm')
+                elif method != 'neg_riem_dist':
+                    bd.check(orc_pool, dict(c0, n_rdm=3, units=units, copy='pooling', sigma='none'), cls, function='util.pooling.pool_rdm')
             if method in ('spearman', 'kendall'):
                 pool_both(dict(c0, n_rdm=4, ties=True, dtype='float32'), 'typed-float32')
     for ti, (dt, lev) in enumerate((('uint8', 250), ('int16', 30000))):
@@ -2316,17 +2346,23 @@ def _sweeps(run, thorough, bds):
                     bd.check(orc_fit_regress, dict(c1, again=True), 'repeated-call', function=fn)
                     bd.check(orc_fit_regress, dict(c1, unit_data=1e8), 'units-data', function=fn)
                     bd.check(orc_fit_regress, dict(c1, unit_data=[1e-3, 1.0, 1e6]), 'units-data', function=fn)
-                    if PENDING_UNITS_WHITENED or not method.endswith('_cov'):
-                        bd.check(orc_fit_regress, dict(c1, unit_data=1e-12), 'units-data-tiny,whitened' if method.endswith('_cov')
-                                 else 'units-data', function=fn)
+                    if not method.endswith('_cov'):
+                        bd.check(orc_fit_regress, dict(c1, unit_data=1e-12), 'units-data', function=fn)
                     if not nonneg:
                         bd.check(orc_fit_regress, dict(c1, unit_model=1e4), 'units-model', function=fn)
-                        if PENDING_UNITS_WHITENED or not method.endswith('_cov'):
-                            bd.check(orc_fit_regress, dict(c1, unit_model=1e-6, unit_data=1e-6),
-                                     'units-model-tiny,whitened' if method.endswith('_cov') else 'units-model', function=fn)
-                    elif PENDING_UNITS_NN:
-                        bd.check(orc_fit_regress, dict(c1, unit_model=1e4), 'units-model,nonneg', function=fn)
-                        bd.check(orc_fit_regress, dict(c1, unit_model=1e-6, unit_data=1e-6), 'units-model,nonneg', function=fn)
+                        if not method.endswith('_cov'):
+                            bd.check(orc_fit_regress, dict(c1, unit_model=1e-6, unit_data=1e-6), 'units-model', function=fn)
+                    if False:  # pending triage: units-tiny,whitened-fit
+                        # conjugate gradients with atol=1e-9 in the fitters and in util.pooling.pool_rdm: data / model RDMs in small units
+                        if method.endswith('_cov'):
+                            bd.check(orc_fit_regress, dict(c1, unit_data=1e-12), 'units-tiny,whitened-fit', function=fn)
+                            bd.check(orc_fit_regress, dict(c1, unit_model=1e-10, unit_data=1e-6), 'units-tiny,whitened-fit', function=fn)
+                    if False:  # pending triage: units-model,nonneg
+                        # _nn_least_squares stops on `max(w) > 100 * eps` (absolute): model RDMs in other units -> no termination / zeros
+                        if nonneg:
+                            bd.check(orc_fit_regress, dict(c1, unit_model=1e4), 'units-model,nonneg', function=fn)
+                            if not method.endswith('_cov'):
+                                bd.check(orc_fit_regress, dict(c1, unit_model=1e-15, unit_data=1e-6), 'units-model,nonneg', function=fn)
     for si, (sample, form, by) in enumerate([([3, 1, 3, 0, 4], 'list', 'index'), ([4, 4, 0, 2, 1], 'tuple', 'str'),
                                              ([1, 0, 1, 0, 3], 'ndarray', 'str'), ([2, 4, 2, 0, 2], 'ndarray', 'index')]):
         for method in fit_methods:
